@@ -376,6 +376,20 @@ def main(tier="quick", seed=0):
             k = 4 if quick else 7
             pick = [encs_all[0]] + [encs_all[int(j)] for j in rng.choice(np.arange(1, len(encs_all)), size=k - 1, replace=False)]
             jobs.append(("pool", e.name, pool[int(i)], int(rng.integers(0, 1000)), n_ % 2, pick))
+    # larger seeded pools (6-10 samples), mostly with an index list that leaves unlabeled samples among the
+    # non-candidates: code that looks at the labels of "the other samples" meets the sentinel only there
+    # (both classes labeled, points in general position: the regime in which a miscounted class / an extra
+    #  "NaN class" changes a clustering or a class-dependent score)
+    big = [x for x in pc.random_scenarios(rng, 3000, 6, 10) if x["mode"] in ("idx", "none", "rows")]
+    big_idx = [x for x in big if x["mode"] == "idx" and len(x["S"]) < x["n"] - len(x["labeled"])
+               and len(x["labeled"]) >= 2 and x["labpat"] == "all-classes"
+               and x["geom"] in ("distinct", "constant-feature", "collinear")]
+    per_big = {1: 10, 2: 6, 3: 2} if quick else {1: 80, 2: 40, 3: 10}
+    for e in ENTRIES.values():
+        pool = [s for s in big_idx if pc.applicable(e, s)]
+        for n_, i in enumerate(rng.choice(len(pool), size=min(per_big[e.cost], len(pool)), replace=False)):
+            pick = [encs_all[0]] + [encs_all[int(j)] for j in rng.choice(np.arange(1, len(encs_all)), size=2, replace=False)]
+            jobs.append(("pool", e.name, pool[int(i)], int(rng.integers(0, 1000)), n_ % 2, pick))
     for e in REG_ENTRIES.values():
         pool = [s for s in scenarios if pc.applicable(e, s)]
         for n_, i in enumerate(rng.choice(len(pool), size=min(per_cost[e.cost], len(pool)), replace=False)):
